@@ -42,6 +42,9 @@ def history(rng, n, pmax):
     return out
 
 
+VALUE_PMAX = 700
+
+
 def per_constant(chk, mpmath, lm, name, rng, inj, events, meta, eid, nh):
     slow = name in ("khinchin", "glaisher", "twinprime", "mertens", "euler")
     pmax = chk.pick(300 if slow else 1200, 900 if slow else 3000)
@@ -98,6 +101,21 @@ def per_constant(chk, mpmath, lm, name, rng, inj, events, meta, eid, nh):
             chk.violation("raises/%s" % name, "constant %s at prec %d raises %r" % (name, p, e), {"const": name, "p": p})
             cell.memo_prec = -1; cell.memo_val = None
             vals = [fn(p, r) for r in "nfcdu"]
+        # value anchoring against the spec's own enclosures (RealFun) / the algebraic definition of phi
+        wv = p + 40
+        for r_, v_ in zip("nfcdu", vals):
+            if name in ("pi", "ln2", "degree") and p <= VALUE_PMAX:
+                events.append(enc.event(eid, "realconst", [], p, r_, enc.f(v_), pb=0, x={"f": name, "w": wv}))
+            elif name == "e" and p <= VALUE_PMAX:
+                events.append(enc.event(eid, "realround", [enc.f((0, 1, 0, 1))], p, r_, enc.f(v_), pb=0, x={"f": "exp", "w": wv}))
+            elif name == "ln10" and p <= VALUE_PMAX:
+                events.append(enc.event(eid, "realround", [enc.f((0, 5, 1, 3))], p, r_, enc.f(v_), pb=0, x={"f": "log", "w": wv}))
+            elif name == "phi":
+                events.append(enc.event(eid, "phi_round", [], p, r_, enc.f(v_), pb=0))
+            else:
+                continue
+            meta[eid] = {"const": name, "p": p, "rnd": r_, "value_vs_spec_enclosure": True}
+            eid += 1
         ev = enc.event(eid, "const5", [enc.f(v) for v in vals], p, "n", enc.sym("none"))
         meta[eid] = {"const": name, "p": p, "five_modes": True}
         events.append(ev); eid += 1
@@ -161,13 +179,17 @@ def main():
     for i, clauses in sorted(bad.items()):
         m = meta[i]
         for cl in clauses:
-            if cl in ("canon", "bits") :
+            if cl in ("canon", "bits"):
+                continue
+            if cl == "undecided":
+                chk.cov["undecided"] = chk.cov.get("undecided", 0) + 1
                 continue
             chk.violation("%s/%s" % (cl, m["const"]), "constant %s: clause %s fails: %s" % (m["const"], cl, json.dumps(m)[:200]), m)
     chk.cov["rule"] = ("seeded request histories (precision, mode) per constant from an emptied memo; distinct = (constant, history prefix) "
                        "or (constant, precision set); every event is judged by TLC")
-    chk.assumptions += ["values are judged relationally here (history-free, ordered, adjacent, nested); the numerical value of pi, e, ln2, "
-                        "ln10, phi, degree is additionally judged against the spec's own series enclosures once RealFun is wired in"]
+    chk.assumptions += ["pi, ln2, degree, e, ln10 are judged for correct rounding against the spec's own series enclosures (RealFun: Machin, atanh(1/3), exp and log series) "
+                        "up to %d bits, phi against its algebraic definition at every precision; the other seven constants relationally (one real number compatible with every answer)" % VALUE_PMAX,
+                        "remainder bounds of the series in spec/RealFun.tla are trusted mathematics"]
     chk.finish()
 
 
